@@ -102,7 +102,7 @@ BOUNDS = [0, 1, 127, 128, 129, 16383, 16384, 16385, 2097151, 2097152, 2097153, 2
 @register
 class C15(Base):
     id = 'C15'
-    ops = ['vi_len', 'vi_total', 'vi_hlen', 'vi_rlen', 'vi_try', 'vi_write', 'vi_read', 'vi_poll', 'vi_range', 'sched']
+    ops = ['vi_len', 'vi_total', 'vi_hlen', 'vi_rlen', 'vi_try', 'vi_write', 'vi_read', 'vi_poll', 'vi_range', 'sched', 'dec']
     rule = ('boundaries +-2 of every width, powers of 128 +-2, first invalid values, all continuation-bit patterns of '
             'up to five bytes with extreme payload bits (standalone reader and poll header machine, both families), '
             'random values, and hashed ranges (quick: windows around each boundary + random windows; thorough: all 2^28 '
@@ -152,6 +152,17 @@ class C15(Base):
                 if len(p) >= 1:
                     cs.append('sched %s %s eof' % (fam, '.'.join('p.b%02x.c' % x for x in b'\x30' + p)))
                     hist(dist, 'sched-header')
+        # the byte count reported by decode_var_int is observable where the library uses it: the property length of a
+        # v5 UNSUBSCRIBE (spelled minimally and non-minimally; the library accepts both and must frame the topics after it)
+        self.unsub = {}
+        for users in ([], [(b'k', b'v')], [(b'k' * 60, b'v' * 70)]):
+            pkt = ('unsubscribe', 7, ({}, users), [b'a/b', b'#'])
+            for w in (None, 2, 3, 4):
+                b = pk.encode('v5', pkt, spell={'plen_width': w, 'short': False}) if w else pk.encode('v5', pkt)
+                c = 'dec v5 ' + pk.hx(b)
+                self.unsub[c] = 'ok ' + pk.tok('v5', pkt)
+                cs.append(c)
+                hist(dist, 'unsubscribe-plen-width')
         if tier == 'quick':
             wins = []
             for b in (128, 16384, 2097152, 268435456):
@@ -168,6 +179,12 @@ class C15(Base):
             hist(dist, 'vi_range')
         dist['values_in_ranges'] = sum(b - a for a, b in wins)
         return cs, dist
+
+    def project(self, case, line):
+        if case.startswith('dec '):
+            f = fields(line)
+            return ';'.join('%s=%s' % (k, f.get(k, '')) for k in ('block', 'async', 'poll'))
+        return line
 
     @staticmethod
     def vlen(n):
@@ -208,6 +225,14 @@ class C15(Base):
                 want = str(n - 1 - r)
             if line != want:
                 return '%s(%d) = %s, the law gives %s' % (op, n, line, want)
+        elif op == 'dec':
+            want = self.unsub.get(case)
+            if want is not None:
+                f = fields(line)
+                for fe in ('block', 'async', 'poll'):
+                    if f.get(fe) != want:
+                        return ('v5 UNSUBSCRIBE whose property length uses a (legal, possibly non-minimal) variable byte integer: '
+                                '%s decoder returns %s — the byte count reported by the reader is wrong' % (fe, f.get(fe, '')[:100]))
         elif op == 'sched':
             b = bytes(int(a[1:], 16) for a in t[2].split('.') if a.startswith('b'))[1:]
             if len(b) >= 4 and all(x & 0x80 for x in b[:4]):
@@ -252,7 +277,7 @@ class C15(Base):
             return len(t[1]) > 3
         if t[0] == 'vi_poll':
             return len(t[2]) > 3
-        if t[0] == 'sched':
+        if t[0] in ('sched', 'dec'):
             return True
         return int(t[1]) >= 128
 
@@ -431,9 +456,13 @@ class C16(Base):
         for s in pool:
             cs.append('tf ' + pk.hx(s))
             hist(dist, 'tf')
-        sub = [s for s in pool if len(s) <= 65000 and utf8_ok(s)]
+        sub = [s for s in pool if len(s) <= 65535 and utf8_ok(s)]
         step = max(1, len(sub) // (5000 if tier == 'quick' else 80000))
-        for s in sub[::step]:
+        g = pk.Gen(rng)
+        longs = [s for s in sub if len(s) > 60000]
+        # valid filters at the very top of the length range (the per-entry length arithmetic must not wrap)
+        longs += [b'a/' * 32765 + b'abc'[:k] for k in (1, 2, 3)] + [b'x' * n for n in (65532, 65533, 65534, 65535)]
+        for s in sub[::step] + longs:
             frames = [('v3', ('subscribe', 3, [(b'ok/#', 1), (s, 2)])),
                       ('v5', ('subscribe', 3, ({}, []), [(s, 1, 0, 1, 0)])),
                       ('v3', ('unsubscribe', 4, [s, b'x'])),
